@@ -18,3 +18,13 @@ def resolve_under_prefix_renaming(w1, p, p2, l, w2, m, m2):
     a = QNameConverter.resolve(w1 + p + ":" + l + w2, m)
     b = QNameConverter.resolve(w1 + p2 + ":" + l + w2, m2)
     return a, b
+
+
+from xsdata.formats.dataclass.parsers.nodes.skip import SkipNode
+
+
+def skip_node_scope():
+    """Every node the parser pushes on its queue answers `.ns_map` (the pure-Python handler reads `queue[-1].ns_map`
+    to compute the in-scope map of the next element): also the node that stands for a skipped subtree."""
+    node = SkipNode()
+    return node.ns_map
